@@ -34,5 +34,5 @@ MANIFEST = {
     'category': 'proof',
     'technique': 'contract-based deductive verification (plus a bounded run of the real drivers on y\'=const): exact evaluation of the coefficient code + algebraic order conditions; formal-vector stage identities on the real step functions; z3 VCs with loop invariants for newton and the step controllers',
     'text': 'Every shipped tableau (7 DIRK, 5 Rosenbrock) is re-read from the current source, evaluated in exact arithmetic and checked against the order conditions of its documented main and embedded order, lower-triangularity, stiff accuracy and constant Gamma diagonal. The real dirk_step and rosenbrock_step are executed over formal vectors with their dependencies replaced by contracts and must produce exactly the stage equations, update and embedded estimate of an arbitrary tableau. newton, the constant-step and the adaptive-step controllers are verified with loop invariants: times t0+k*tau with one state per time; strictly increasing times reaching t_end, steps appended only after r<=1, step factors within [0.2,5]; newton returns only points whose residual was tested below the tolerance and otherwise raises.',
-    'note': 'double treated as real; tolerance 5e-9 on exact residuals; finite stage-count bound for the step identities (s<=3 quick, s<=5 thorough); newton/make_solver/np.allclose contracts assumed; adaptive-loop termination not proved; the real Newton solver with its finite tolerances is only exercised by the bounded y\'=const runs. Known finding: dirk34 table violates its documented order conditions (known_findings.json).',
+    'note': 'double treated as real; tolerance 5e-9 on exact residuals; finite stage-count bound for the step identities (s<=3 quick, s<=5 thorough); newton/make_solver/np.allclose contracts assumed; adaptive-loop termination not proved; the real Newton solver with its finite tolerances is only exercised by the bounded y\'=const runs. Known finding: dirk34 table violates its documented order conditions (known_findings.json). Bounded tier also: one step of each Rosenbrock driver on M y\' = L y + g against the stage equations written out from its tables; column-major and 1x1 mass matrices, which the integrators must leave unchanged.',
 }
